@@ -17,7 +17,7 @@ from holopy.scattering.theory.lens import Lens
 from holopy.scattering.theory import mielensfunctions as mlf
 
 ID = "C08"
-LEAN_MODULES = ["HoloProps.C08"]
+LEAN_MODULES = ["HoloProps.C08", "HoloProps.C08Formula"]
 MODEL_MODULES = ["HoloModel.LensQuad", "HoloModel.LensModel"]
 GEN_DEPS = []
 NOT_PROVED = [
